@@ -50,6 +50,27 @@ func c01Features() []c01Feature {
 			p.Queries = append(p.Queries, PQuery{Name: "ByKeywordTwo", Cmd: ":many", SQL: fmt.Sprintf("SELECT id, %s FROM %s WHERE %s = %s AND id > %s", q(p, kw), t.Name, q(p, kw), p.ph(1), p.ph(2))})
 			return true
 		}},
+		{"mixedCaseIdentifiers", func(r *Rng, p *Project) bool {
+			// quoted identifiers keep their capitals (ORM-style schemas): a single parameter made from such a
+			// column sits next to the type made from its table
+			if p.Engine == "mysql" {
+				return false
+			}
+			for _, t := range p.Tables {
+				if t.Name == "colors" {
+					return false
+				}
+			}
+			p.Tables = append(p.Tables, PTable{Name: "colors", Cols: []PCol{{Name: "id", Type: "bigint", NotNull: true}, {Name: `"Color"`, Type: "text", NotNull: true},
+				{Name: `"Ident"`, Type: "int"}, {Name: `"camelCase"`, Type: "text"}, {Name: `"Colors"`, Type: "int"}}})
+			p.Queries = append(p.Queries,
+				PQuery{Name: "GetColor", Cmd: ":one", SQL: `SELECT id, "Color", "Ident", "camelCase", "Colors" FROM colors WHERE "Color" = $1`},
+				PQuery{Name: "ListByColor", Cmd: ":many", SQL: `SELECT id, "Color", "Ident", "camelCase", "Colors" FROM colors WHERE "Color" = $1`},
+				PQuery{Name: "ByCamel", Cmd: ":many", SQL: `SELECT id, "camelCase" FROM colors WHERE "camelCase" = $1`},
+				PQuery{Name: "ByCapsID", Cmd: ":one", SQL: `SELECT id, "Color" FROM colors WHERE "Ident" = $1`},
+				PQuery{Name: "CountColors", Cmd: ":one", SQL: `SELECT count(*) FROM colors WHERE "Colors" = $1`})
+			return true
+		}},
 		{"casingCollision", func(r *Rng, p *Project) bool {
 			t := &p.Tables[0]
 			t.Cols = append(t.Cols, PCol{Name: "foo_bar", Type: "int"}, PCol{Name: "foo__bar", Type: "int"})
